@@ -2387,6 +2387,12 @@ impl<'p> Evaluator<'_, 'p> {
             ValueData::Array(array) => {
                 let array = array.view();
 
+                // Count nesting so that endless structures hit the stack limit.
+                let name = self.program.intern_str("deepJoin");
+                self.push_trace_item(TraceItem::Call {
+                    span: None,
+                    name: Some(name),
+                });
                 for item in array.iter().rev() {
                     self.state_stack
                         .push(State::FnFallible(Self::do_std_deep_join_array_item));
@@ -2484,6 +2490,11 @@ impl<'p> Evaluator<'_, 'p> {
             let sub_array = sub_array.view();
             if let Some(sub_item0) = sub_array.first() {
                 let sub_item0 = sub_item0.view();
+                // Count nesting so that endless structures hit the stack limit.
+                self.push_trace_item(TraceItem::ArrayItem {
+                    span: None,
+                    index,
+                });
                 self.state_stack.push(State::StdFlattenDeepArrayItem {
                     array: sub_array,
                     index: 0,
@@ -3989,6 +4000,11 @@ impl<'p> Evaluator<'_, 'p> {
                     .find_object_field_thunk(&patch, 0, field_name)
                     .unwrap();
 
+                // Count nesting so that endless structures hit the stack limit.
+                self.push_trace_item(TraceItem::ObjectField {
+                    span: None,
+                    name: field_name,
+                });
                 self.state_stack
                     .push(State::StdMergePatchField { name: field_name });
                 self.state_stack.push(State::StdMergePatchValue);
@@ -4003,6 +4019,7 @@ impl<'p> Evaluator<'_, 'p> {
                 } else {
                     self.value_stack.push(ValueData::Null);
                 }
+                self.delay_trace_item();
             }
 
             self.check_object_asserts(&patch);
